@@ -32,6 +32,7 @@ var extractors = []extractor{
 	{"AuthFacts", genAuthFacts},
 	{"Debug", genDebug},
 	{"SrvHandlers", genSrvHandlers},
+	{"RespFacts", genRespFacts},
 }
 
 func main() {
